@@ -41,17 +41,17 @@ theorem runs_unique {E : Encoder} {mode : Mode} {s : E.σ} {q : List Nat} {o1 o2
 
 /-- whatever the fuelled function returns is a run of "process a queue" -/
 theorem run_sound (E : Encoder) (mode : Mode) : ∀ (fuel : Nat) (s : E.σ) (q : List Nat) (out : List Ev),
-    run E mode fuel s q = some out → Runs E mode s q out
-  | 0, _, _, _, h => by simp [run] at h
+    Spec.Encode.run E mode fuel s q = some out → Runs E mode s q out
+  | 0, _, _, _, h => by simp [Spec.Encode.run] at h
   | fuel + 1, s, q, out, h => by
-    unfold run at h
+    unfold Spec.Encode.run at h
     simp only at h
     split at h
     · rename_i hres
       cases h
       exact Runs.finished s q hres
     · rename_i bs hres
-      cases hr : run E mode fuel (E.handler s q.head?).st ((E.handler s q.head?).queueAfter q) with
+      cases hr : Spec.Encode.run E mode fuel (E.handler s q.head?).st ((E.handler s q.head?).queueAfter q) with
       | none => rw [hr] at h; cases h
       | some o =>
         rw [hr] at h
@@ -63,7 +63,7 @@ theorem run_sound (E : Encoder) (mode : Mode) : ∀ (fuel : Nat) (s : E.σ) (q :
         cases h
         exact Runs.errorFatal s q c rfl hres
       | report =>
-        cases hr : run E .report fuel (E.handler s q.head?).st ((E.handler s q.head?).queueAfter q) with
+        cases hr : Spec.Encode.run E .report fuel (E.handler s q.head?).st ((E.handler s q.head?).queueAfter q) with
         | none => simp only [hr] at h; cases h
         | some o =>
           simp only [hr] at h
@@ -142,12 +142,15 @@ theorem eref_erun (F : EFam) : ∀ (text : List Nat) (s : F.σ),
         simp only [evsOfReport, List.nil_append]
         refine ⟨by omega, by simp only [List.length_cons]; omega, ?_⟩
         rw [ih'.2.2, List.map_append, List.append_assoc]
-        have : (erun F true st (rest.map fun c => (c, 1)) .unlimited).read + 1
-            = ((erun F true st (rest.map fun c => (c, 1)) .unlimited).read - 1) + 1 + 1 := by omega
-        congr 2
-        rw [Nat.add_comm, List.drop_succ_cons]
+        rfl
 
 /-! ### (c) the sources -/
+
+theorem itemsOf_succ (read : List Nat → Option (Nat × Nat)) (fuel : Nat) (units : List Nat) :
+    itemsOf read (fuel + 1) units
+      = match read units with
+        | none => []
+        | some (c, w) => (c, w) :: itemsOf read fuel (units.drop w) := rfl
 
 theorem itemsOf_read16 : ∀ (fuel : Nat) (units : List Nat), units.length ≤ fuel →
     (itemsOf read16 fuel units).map (·.1) = Spec.Conv.decodeUtf16Lossy units
@@ -158,33 +161,114 @@ theorem itemsOf_read16 : ∀ (fuel : Nat) (units : List Nat), units.length ≤ f
   | fuel + 1, [], _ => by simp [itemsOf, read16, Spec.Conv.decodeUtf16Lossy]
   | fuel + 1, u :: rest, h => by
     have hlen : rest.length ≤ fuel := by simpa using h
-    unfold itemsOf read16 Spec.Conv.decodeUtf16Lossy
+    rw [itemsOf_succ]
     by_cases h1 : u < 0xD800 ∨ 0xDFFF < u
     · have hh : Spec.Conv.isHighSurrogate u = false := by unfold Spec.Conv.isHighSurrogate; simp; omega
       have hl : Spec.Conv.isLowSurrogate u = false := by unfold Spec.Conv.isLowSurrogate; simp; omega
-      simp only [h1, if_true, hh, hl, Bool.false_eq_true, if_false, List.map_cons, List.drop_succ_cons, List.drop_zero]
+      have hread : read16 (u :: rest) = some (u, 1) := by simp [read16, h1]
+      rw [hread]
+      simp only [List.map_cons, List.drop_succ_cons, List.drop_zero]
       rw [itemsOf_read16 fuel rest hlen]
+      conv => rhs; rw [Spec.Conv.decodeUtf16Lossy.eq_def]
+      simp [hh, hl]
     · by_cases h2 : u ≤ 0xDBFF
       · have hh : Spec.Conv.isHighSurrogate u = true := by unfold Spec.Conv.isHighSurrogate; simp; omega
-        simp only [h1, if_false, h2, if_true, hh]
         cases rest with
-        | nil => simp [itemsOf, read16, Spec.Conv.replacement, Spec.Conv.decodeUtf16Lossy]
-                 cases fuel <;> simp [itemsOf, read16]
+        | nil =>
+          have hread : read16 [u] = some (0xFFFD, 1) := by simp [read16, h1, h2]
+          rw [hread]
+          simp only [List.map_cons, List.drop_succ_cons, List.drop_zero]
+          rw [itemsOf_read16 fuel [] (by simp)]
+          conv => rhs; rw [Spec.Conv.decodeUtf16Lossy.eq_def]
+          simp [hh, Spec.Conv.replacement, Spec.Conv.decodeUtf16Lossy]
         | cons lo rest' =>
           by_cases h3 : 0xDC00 ≤ lo ∧ lo ≤ 0xDFFF
           · have hl : Spec.Conv.isLowSurrogate lo = true := by unfold Spec.Conv.isLowSurrogate; simp; omega
-            simp only [h3, and_self, if_true, hl, List.map_cons, Spec.Conv.pairValue]
+            have hread : read16 (u :: lo :: rest') = some (Spec.Conv.pairValue u lo, 2) := by
+              rw [read16]
+              simp only [h1, if_false, h2, if_true, h3, and_self]
+              unfold Spec.Conv.pairValue
+              rfl
+            rw [hread]
             have hlen' : rest'.length ≤ fuel := by simp at hlen; omega
-            simp only [List.drop_succ_cons, List.drop_zero]
+            simp only [List.map_cons, List.drop_succ_cons, List.drop_zero]
             rw [itemsOf_read16 fuel rest' hlen']
+            conv => rhs; rw [Spec.Conv.decodeUtf16Lossy.eq_def]
+            simp only [hh, hl, if_true]
           · have hl : Spec.Conv.isLowSurrogate lo = false := by unfold Spec.Conv.isLowSurrogate; simp; omega
-            simp only [h3, if_false, hl, Bool.false_eq_true, List.map_cons, Spec.Conv.replacement,
-              List.drop_succ_cons, List.drop_zero]
+            have hread : read16 (u :: lo :: rest') = some (0xFFFD, 1) := by simp [read16, h1, h2, h3]
+            rw [hread]
+            simp only [List.map_cons, List.drop_succ_cons, List.drop_zero]
             rw [itemsOf_read16 fuel (lo :: rest') hlen]
+            conv => rhs; rw [Spec.Conv.decodeUtf16Lossy.eq_def]
+            simp [hh, hl, Spec.Conv.replacement]
       · have hh : Spec.Conv.isHighSurrogate u = false := by unfold Spec.Conv.isHighSurrogate; simp; omega
         have hl : Spec.Conv.isLowSurrogate u = true := by unfold Spec.Conv.isLowSurrogate; simp; omega
-        simp only [h1, if_false, h2, hh, hl, Bool.false_eq_true, if_true, List.map_cons, Spec.Conv.replacement,
-          List.drop_succ_cons, List.drop_zero]
+        have hread : read16 (u :: rest) = some (0xFFFD, 1) := by simp [read16, h1, h2]
+        rw [hread]
+        simp only [List.map_cons, List.drop_succ_cons, List.drop_zero]
         rw [itemsOf_read16 fuel rest hlen]
+        conv => rhs; rw [Spec.Conv.decodeUtf16Lossy.eq_def]
+        simp [hh, hl, Spec.Conv.replacement]
+
+theorem utf8Encode_length (c : Nat) : (Spec.Conv.utf8Encode c).length = Spec.Conv.utf8Len c := by
+  unfold Spec.Conv.utf8Encode Spec.Conv.utf8Len
+  repeat' split
+  all_goals rfl
+
+theorem utf8Len_pos (c : Nat) : 0 < Spec.Conv.utf8Len c := by
+  unfold Spec.Conv.utf8Len
+  repeat' split
+  all_goals omega
+
+theorem read8_utf8Encode (c : Nat) (hc : c < 0x110000) (tail : List Nat) :
+    read8 (Spec.Conv.utf8Encode c ++ tail) = some (c, Spec.Conv.utf8Len c) := by
+  unfold Spec.Conv.utf8Encode Spec.Conv.utf8Len
+  by_cases h1 : c < 0x80
+  · simp [h1, read8]
+  · by_cases h2 : c < 0x800
+    · simp only [h1, h2, if_false, if_true, List.cons_append, List.nil_append, read8, List.getD_cons_zero]
+      have a1 : ¬ (0xC0 + c / 64 < 0x80) := by omega
+      have a2 : 0xC0 + c / 64 < 0xE0 := by omega
+      have v : (0xC0 + c / 64) % 32 * 64 + (0x80 + c % 64) % 64 = c := by omega
+      simp only [a1, a2, if_false, if_true, v]
+    · by_cases h3 : c < 0x10000
+      · simp only [h1, h2, h3, if_false, if_true, List.cons_append, List.nil_append, read8,
+          List.getD_cons_zero, List.getD_cons_succ]
+        have a1 : ¬ (0xE0 + c / 4096 < 0x80) := by omega
+        have a2 : ¬ (0xE0 + c / 4096 < 0xE0) := by omega
+        have a3 : 0xE0 + c / 4096 < 0xF0 := by omega
+        have v : (0xE0 + c / 4096) % 16 * 4096 + (0x80 + c / 64 % 64) % 64 * 64 + (0x80 + c % 64) % 64 = c := by omega
+        simp only [a1, a2, a3, if_false, if_true, v]
+      · simp only [h1, h2, h3, if_false, List.cons_append, List.nil_append, read8,
+          List.getD_cons_zero, List.getD_cons_succ]
+        have a1 : ¬ (0xF0 + c / 262144 < 0x80) := by omega
+        have a2 : ¬ (0xF0 + c / 262144 < 0xE0) := by omega
+        have a3 : ¬ (0xF0 + c / 262144 < 0xF0) := by omega
+        have v : (0xF0 + c / 262144) % 8 * 262144 + (0x80 + c / 4096 % 64) % 64 * 4096
+            + (0x80 + c / 64 % 64) % 64 * 64 + (0x80 + c % 64) % 64 = c := by omega
+        simp only [a1, a2, a3, if_false, v]
+
+theorem itemsOf_read8 : ∀ (text : List Nat) (fuel : Nat), text.length ≤ fuel →
+    (∀ c ∈ text, c < 0x110000) →
+    itemsOf read8 fuel (Spec.Conv.utf8EncodeAll text) = text.map fun c => (c, Spec.Conv.utf8Len c)
+  | [], fuel, _, _ => by
+    cases fuel <;> simp [itemsOf, Spec.Conv.utf8EncodeAll, read8]
+  | c :: rest, 0, h, _ => by simp at h
+  | c :: rest, fuel + 1, h, hb => by
+    rw [itemsOf_succ, Spec.Conv.utf8EncodeAll, read8_utf8Encode c (hb c (List.mem_cons_self ..))]
+    simp only [List.map_cons]
+    have hd : List.drop (Spec.Conv.utf8Len c) (Spec.Conv.utf8Encode c ++ Spec.Conv.utf8EncodeAll rest)
+        = Spec.Conv.utf8EncodeAll rest := by
+      rw [← utf8Encode_length c, List.drop_left]
+    rw [hd, itemsOf_read8 rest fuel (by simpa using h) (fun b hb' => hb b (List.mem_cons_of_mem _ hb'))]
+
+theorem utf8EncodeAll_length_ge : ∀ (text : List Nat), text.length ≤ (Spec.Conv.utf8EncodeAll text).length
+  | [] => by simp [Spec.Conv.utf8EncodeAll]
+  | c :: rest => by
+    rw [Spec.Conv.utf8EncodeAll, List.length_append, utf8Encode_length, List.length_cons]
+    have := utf8Len_pos c
+    have := utf8EncodeAll_length_ge rest
+    omega
 
 end EncodingRs.Lemmas.ConformEnc
